@@ -870,6 +870,9 @@ static int _fetch_and_process_packet(OggVorbis_File *vf,
           vf->current_serialno=vf->os.serialno;
           vf->current_link++;
           link=0;
+          /* _fetch_headers has already submitted the page it left in og;
+             submitting it again would be seen as a hole */
+          continue;
         }
       }
     }
